@@ -604,4 +604,36 @@ def two_appender_checks(ctx):
         if res:
             break
     ctx.setdefault("xcheck", {})["two_appender_processes"] = len(jobs)
+    if res:
+        return res
+    # the stdout stream RE-POINTED (dup2) between two appenders of one process: terminal -> pipe and pipe -> terminal.
+    # Reference: a process with one stdout appender whose stdout has always been that kind of stream.
+    jobs2 = []
+    for env in envs:
+        for tty_only in (0, 1):
+            chunks = chunks_hl() if rng.chance(2, 3) else chunks_plain()
+            lv = rng.range(1, 5)
+            for first_tty in (1, 0):
+                jobs2.append((pcase(env, 0, tty_only, 1, 0, chunks, lv), pcase(env, 0, tty_only, 0, 1, chunks, lv),
+                              pcase(env, 6, tty_only, first_tty, 1 - first_tty, chunks, lv), first_tty))
+    flat = [j for t in jobs2 for j in t[:3]]
+    with concurrent.futures.ThreadPoolExecutor(max_workers=12) as ex:
+        got2 = list(ex.map(lambda c: run_child(exe, c), flat))
+    for k, (ct, cp, cs, first_tty) in enumerate(jobs2):
+        try:
+            rt, rp, rs = (vc.parse(g) for g in got2[3 * k:3 * k + 3])
+        except Exception:
+            res.append(("stdout re-pointed between two appenders: a child did not finish normally: %r" % (got2[3 * k:3 * k + 3],),
+                        {"case": describe(cs)}))
+            break
+        on_tty, on_pipe = bytes(rt[0]), bytes(rp[0])
+        want = [on_tty, on_pipe] if first_tty else [on_pipe, on_tty]
+        if [bytes(rs[0]), bytes(rs[1])] != want:
+            res.append(("one process, fd 1 re-pointed (dup2) from a %s to a %s between two stdout appenders: the first stream "
+                        "carries %r and the second %r; appenders of processes whose stdout has always been a terminal / a "
+                        "pipe write %r / %r" % (("terminal", "pipe") if first_tty else ("pipe", "terminal"),
+                                                bytes(rs[0]), bytes(rs[1]), on_tty, on_pipe),
+                        {"case": describe(cs)}))
+            break
+    ctx["xcheck"]["repointed_stdout_processes"] = len(jobs2)
     return res
